@@ -23,6 +23,9 @@ var c11Slots = []string{
 	"{ print 'before'; x = !(@); print 'after' }",
 	"function f(a) { return 1 }\n{ print 'before'; x = f(@); print 'after' }",
 	"function f(a, b) { return 1 }\n{ print 'before'; x = f(1, @); print 'after' }",
+	"function f(a) { return 1 }\n{ print 'before'; x = f(1, @); print 'after' }",
+	"function f() { return 1 }\n{ print 'before'; x = f(@); print 'after' }",
+	"function f(a) { return 1 }\n{ print 'before'; x = f(1, 2, 3, @, 5); print 'after' }",
 	"{ print 'before'; x = [1].contains(@); print 'after' }",
 	"{ print 'before'; x = [1, @, 3]; print 'after' }",
 	"{ print 'before'; x = {k: 1, j: @}; print 'after' }",
